@@ -215,35 +215,54 @@ func (s *pitSys) Apply(i any, op explore.Op) (v []report.Violation) {
 	if d.TokenMapSize != len(d.Pit) {
 		v = append(v, report.Violation{Clause: "C08.pit", Key: "token map size differs from PIT entries after " + last, Detail: fmt.Sprintf("pitTokenMap has %d entries, PIT has %d", d.TokenMapSize, len(d.Pit))})
 	}
-	// entries must not outlive their records (latest lifetime) by more than two reaper ticks, and
-	// record-less (satisfied / cache-answered) entries must go within two ticks. Only meaningful
-	// right after the reaper ran (T ops).
+	// Only meaningful right after the reaper ran (T ops).
 	if last == "T" {
-		now := in.sim.Now()
-		for _, e := range d.Pit {
-			if len(e.In)+len(e.Out) > 0 {
-				// "no later than shortly after the latest lifetime among the Interests recorded in it"
-				dl, ok := in.deadline[entryKey(e.Name, e.CanBePrefix, e.MustBeFresh, e.Hint)]
-				if ok && now.Sub(dl) > 2*tick {
-					v = append(v, report.Violation{Clause: "C08.when", Key: "PIT entry outlives the latest lifetime of the Interests recorded in it", Detail: fmt.Sprintf("entry %s cbp=%v still present %v after the latest Interest lifetime elapsed: %+v queue=%+v", e.Name, e.CanBePrefix, now.Sub(dl), e, in.sim.Queue())})
-				}
-			} else if t0, ok := in.bare[entryKey(e.Name, e.CanBePrefix, e.MustBeFresh, e.Hint)]; ok && now.Sub(t0) > 2*tick {
-				kind := "satisfied"
-				if !e.Satisfied {
-					kind = "never forwarded (answered from cache or dropped)"
-				}
-				v = append(v, report.Violation{Clause: "C08.when", Key: "record-less PIT entry not removed promptly: " + kind, Detail: fmt.Sprintf("entry %s cbp=%v has no in/out records for %v and is still in the PIT (queued=%v satisfied=%v)", e.Name, e.CanBePrefix, now.Sub(t0), e.Queued, e.Satisfied)})
-			}
-		}
+		v = append(v, in.whenViolations()...)
 	}
 	return v
 }
 
-// CheckState: quiescence closure.
+// whenViolations: entries must not outlive their records (latest lifetime) by more than two reaper
+// ticks, and record-less (satisfied / cache-answered) entries must go within two ticks.
+func (in *pitInst) whenViolations() (v []report.Violation) {
+	d := in.sim.Dump()
+	now := in.sim.Now()
+	for _, e := range d.Pit {
+		if len(e.In)+len(e.Out) > 0 {
+			// "no later than shortly after the latest lifetime among the Interests recorded in it"
+			dl, ok := in.deadline[entryKey(e.Name, e.CanBePrefix, e.MustBeFresh, e.Hint)]
+			if ok && now.Sub(dl) > 2*tick {
+				v = append(v, report.Violation{Clause: "C08.when", Key: "PIT entry outlives the latest lifetime of the Interests recorded in it", Detail: fmt.Sprintf("entry %s cbp=%v still present %v after the latest Interest lifetime elapsed: %+v queue=%+v", e.Name, e.CanBePrefix, now.Sub(dl), e, in.sim.Queue())})
+			}
+		} else if t0, ok := in.bare[entryKey(e.Name, e.CanBePrefix, e.MustBeFresh, e.Hint)]; ok && now.Sub(t0) > 2*tick {
+			kind := "satisfied"
+			if !e.Satisfied {
+				kind = "never forwarded (answered from cache or dropped)"
+			}
+			v = append(v, report.Violation{Clause: "C08.when", Key: "record-less PIT entry not removed promptly: " + kind, Detail: fmt.Sprintf("entry %s cbp=%v has no in/out records for %v and is still in the PIT (queued=%v satisfied=%v)", e.Name, e.CanBePrefix, now.Sub(t0), e.Queued, e.Satisfied)})
+		}
+	}
+	return
+}
+
+// CheckState: quiescence closure. The "when" clause is evaluated after every reaper tick on the way, so
+// an entry that lingers (but is gone once every lifetime has elapsed) is seen as well.
 func (s *pitSys) CheckState(i any) (v []report.Violation) {
 	in := i.(*pitInst)
 	// longest Interest lifetime 1 s, DNL lifetime 2 s; the DNL reaper removes <=100 per tick
-	in.run(1*time.Second + 2*time.Second + 2*time.Second)
+	seenKey := map[string]bool{}
+	for left := 1*time.Second + 2*time.Second + 2*time.Second; left > 0; left -= tick {
+		in.sim.Advance(tick)
+		in.sim.Tick()
+		in.track()
+		for _, x := range in.whenViolations() {
+			if !seenKey[x.Key] {
+				seenKey[x.Key] = true
+				x.Detail = "during the quiescent period: " + x.Detail
+				v = append(v, x)
+			}
+		}
+	}
 	d := in.sim.Dump()
 	if len(d.Pit) > 0 {
 		kinds := map[string]bool{}
